@@ -8,6 +8,8 @@ from .. import paths, waiters
 from ..core import FUNC, call_attr, calls_in, const, dotted, kwarg, is_const, norm, text, walk_local
 
 EXPLANATION = [
+    'C09.unordered-pairing: no zip() / enumerate() pairs positions with a set (literal, comprehension, set() call or a name bound only to such): the order of a set is arbitrary.',
+    'C09.one-shot: no name bound to a generator expression or to filter() / map() / zip() / reversed() / enumerate() is read in more than one consuming position or inside a loop that evaluates it repeatedly: such an iterator is empty after its first walk.',
     "C09.identity: no `is` / `is not` comparison in the anchored modules has an operand declared as a number, byte string or string (identity of equal integers holds only inside CPython's small-integer cache, so such a test is right for values up to 256 and wrong afterwards).",
     'C09.listeners: the channel manager subscribes to the host\'s disconnection event with on(), not once(): every lost link, not just the first, triggers the table clean-up.',
     'C09.stale-loopvar: no comprehension or generator expression in bumble.l2cap reads the variable of a `for` loop that has already finished (it would be the last item for every element): table registrations built from a list of channels key each channel by its own identifiers.',
@@ -970,7 +972,19 @@ def identity_rule(ctx):
     identity_compare(ctx, 'C09.identity', ['bumble.l2cap'])
 
 
+def one_shot_rule(ctx):
+    from ..generic_rules import one_shot_iterators
+    one_shot_iterators(ctx, 'C09.one-shot', ['bumble.l2cap'])
+
+
+def unordered_pairing_rule(ctx):
+    from ..generic_rules import unordered_pairing
+    unordered_pairing(ctx, 'C09.unordered-pairing', ['bumble.l2cap'])
+
+
 RULES = [
+    ('C09.unordered-pairing', unordered_pairing_rule),
+    ('C09.one-shot', one_shot_rule),
     ('C09.identity', identity_rule),
     ('C09.listeners', listeners_rule),
     ('C09.stale-loopvar', stale_loopvar_rule),
